@@ -141,3 +141,10 @@ Theorem buggy_metadata_proxy_alias :
     observe (step w1 (OMetaDel 0 "k1")) o <> observe w1 o.
 Proof. exact metadata_proxy_alias_refuted. Qed.
 Print Assumptions buggy_metadata_proxy_alias.
+
+Theorem buggy_make_class_annotations_update :
+  w_dicts (fst (make_class_ann_update w_mk2 mkA)) <> w_dicts w_mk2 /\
+  snd (make_class_ann_update (fst (make_class_ann_update w_mk2 mkA)) mkB) = Raised EValueError /\
+  exists r, snd (make_class_ann_update w_mk2 mkB) = Built r.
+Proof. exact make_class_annotations_update_refuted. Qed.
+Print Assumptions buggy_make_class_annotations_update.
